@@ -257,7 +257,11 @@ def run_case(c):
     phs = []
     vols = []
     fc0 = None
-    for s in (1.0, (1 + eps) ** (1 / 3.0), (1 - eps) ** (1 / 3.0)):
+    # volume triples need not be symmetric about the reference volume (round 9): V- = V0 (1 - k eps), k = 1 | 0.6 | 2.5; the closed form below
+    # and the documented default increment (V+ - V-)/V0 hold for any triple
+    epsm = eps * [1.0, 0.6, 2.5][int(c["seed"]) % 3]
+    obs["grun_asymmetric_triple"] = int(epsm != eps)
+    for s in (1.0, (1 + eps) ** (1 / 3.0), (1 - epsm) ** (1 / 3.0)):
         d = dict(cd)
         d["cell"] = (np.array(cd["cell"]) * s).tolist()
         at = crystals.to_atoms(d)
@@ -323,7 +327,11 @@ def run_case(c):
                     route, "default" if ds is None else "%.6g (explicit)" % ds, float(gb[mb][np.argmax(np.abs(gb[mb] - want))]), want), route=route, explicit_strain=ds is not None)
     # volume-dependent pair model: reduced vs full mesh
     phs2 = []
-    for s in (1.0, (1 + eps) ** (1 / 3.0), (1 - eps) ** (1 / 3.0)):
+    # volume triples need not be symmetric about the reference volume (round 9): V- = V0 (1 - k eps), k = 1 | 0.6 | 2.5; the closed form below
+    # and the documented default increment (V+ - V-)/V0 hold for any triple
+    epsm = eps * [1.0, 0.6, 2.5][int(c["seed"]) % 3]
+    obs["grun_asymmetric_triple"] = int(epsm != eps)
+    for s in (1.0, (1 + eps) ** (1 / 3.0), (1 - epsm) ** (1 / 3.0)):
         d = dict(cd)
         d["cell"] = (np.array(cd["cell"]) * s).tolist()
         ph = Phonopy(crystals.to_atoms(d), supercell_matrix=np.diag([2, 2, 2]), primitive_matrix=cd["pmat"] if cd["pmat"] != "P" else None)
